@@ -482,6 +482,15 @@ PlayerExtendActionDeadline 延長玩家動作結束時間
   - 適用時機: 當玩家動作時間計時器開始時
 */
 func (te *tableEngine) PlayerExtendActionDeadline(playerID string, duration int) (int64, error) {
+	// read-modify-write of the deadline: serialised with the write that starts the next turn
+	te.lock.Lock()
+	defer te.lock.Unlock()
+
+	// nobody is on the clock (between turns / hands the deadline is cleared): nothing to extend
+	if te.table.State.CurrentActionEndAt == 0 {
+		return 0, ErrTablePlayerInvalidGameAction
+	}
+
 	endAt := time.Unix(te.table.State.CurrentActionEndAt, 0)
 	currentActionEndAt := endAt.Add(time.Duration(duration) * time.Second).Unix()
 	te.table.State.CurrentActionEndAt = currentActionEndAt
